@@ -232,7 +232,9 @@ def run_scenario(sc: dict[str, Any]) -> dict[str, Any]:
             # mark where it was cut; whether the livelock belongs to a known family is decided by the specification (Family_F9)
             cut = tr['events'][:600]
             tr['events'] = cut + [{'ev': 'livelock', 't': cut[-1]['t'] if cut else 0}]
+        from vf import inventory
         return {'id': sc['id'], 'conf': conf_of(sc), 'init': tr['init'], 'events': tr['events'], 'stall': stall, 'livelock': bool(livelock), 'scenario': sc, 'orch': orch,
+                'mem': inventory.traces_of(raw, sc['id']),
                 'final': project(sim.things, sim.obj('o1')) if sim.obj('o1') else None,
                 'patches_tail': len([e for e in raw if e['ev'] == 'srv.req' and e.get('kind') == 'patch'
                                      and e['t'] > sc.get('tail_from', sc['end'])])}
